@@ -397,4 +397,7 @@ def run(prog, rep, tier, snap):
     rep.call(r15_3, prog, rep)
     rep.rule("R15.4", "month-transition table accesses are dominated by index < table length", 5)
     rep.call(r15_4, prog, rep)
+    from ..rules import state
+    rep.rule("R15.5", "the calendar conversions carry no state from one call to the next (one table's answer never depends on the other's)", 1)
+    rep.call(state.no_carried_state, prog, rep, "R15.5", "scale")
 READY = True
